@@ -13,6 +13,7 @@ ReqSec == RefSection(<< <<N_METHOD, <<71, 69, 84>>>>, <<N_SCHEME, <<104, 116, 11
 BadSec == RefSection(<< <<<<120>>, <<121>>>> >>, FALSE)                                  \* no :method
 BigSec == RefSection(<< <<N_METHOD, <<71, 69, 84>>>>, <<N_SCHEME, <<104, 116, 116, 112, 115>>>>, <<N_AUTHORITY, <<97>>>>, <<N_PATH, <<47>>>>, <<<<120>>, [i \in 1..300 |-> 97]>> >>, FALSE)
 BadTrl == RefSection(<< <<<<88>>, <<121>>>> >>, FALSE)                                   \* uppercase name in trailers
+EmptyNameSec == <<0, 0, 32, 1, 120>>                                                     \* 00 00 | literal field line, literal name of length 0 | value "x"
 Body == <<104, 101, 108, 108, 111>>
 H == Frame(1, ReqSec)
 D == Frame(0, Body)
@@ -33,19 +34,26 @@ Faulty ==
     \cup { <<"reset", 268, <<Dl(H), Dl(D), RST(268)>>>> }                                            \* after the last frame
     \cup { <<"stop", c, <<Dl(H), STP(c), Dl(D), FIN>>>> : c \in {0, 268} }
     \cup { <<"stop", 268, <<STP(268), Dl(H), Dl(D), FIN>>>> }
+    \cup { <<"malformed", 0, <<Dl(Frame(1, EmptyNameSec)), FIN>>>>,                                  \* a field line whose literal name is empty
+           <<"badtrailers", 0, <<Dl(H), Dl(D), Dl(Frame(1, EmptyNameSec)), FIN>>>>,
+           <<"stoptrl", 268, <<Dl(H), Dl(D), FIN, STP(268), [op |-> "poke"]>>>> }                    \* STOP_SENDING between the last body write and the trailers
     \cup { <<"malformed", 0, <<Dl(Frame(1, BadSec)), FIN>>>>, <<"oversize", 0, <<Dl(Frame(1, BigSec)), FIN>>>>,
            <<"finfirst", 0, <<FIN>>>>, <<"badtrailers", 0, <<Dl(H), Dl(D), Dl(Frame(1, BadTrl)), FIN>>>>,
            <<"dropres", 0, Healthy>>, <<"dropstream", 0, Healthy>> }
 
 Full == <<[op |-> "resolve"], [op |-> "recv_body"], [op |-> "recv_trailers"], [op |-> "send_response", status |-> 200, fields |-> <<>>],
           [op |-> "send_data", bytes |-> <<111, 107>>], [op |-> "finish"]>>
+WithTrailers == <<[op |-> "resolve"], [op |-> "recv_body"], [op |-> "recv_trailers"], [op |-> "send_response", status |-> 200, fields |-> <<>>],
+                  [op |-> "send_data", bytes |-> <<111, 107>>], [op |-> "pause"], [op |-> "send_trailers", fields |-> << <<<<116>>, <<49>>>> >>], [op |-> "finish"]>>
 HandlerOf(kind) == CASE kind = "dropres" -> <<[op |-> "drop"]>>
+                     [] kind = "stoptrl" -> WithTrailers
                      [] kind = "dropstream" -> <<[op |-> "resolve"], [op |-> "drop"]>>
                      [] OTHER -> Full
 
 WithSid(ev, sid) == CASE ev.op = "deliver" -> [op |-> "deliver", sid |-> sid, bytes |-> ev.bytes]
                       [] ev.op = "fin" -> [op |-> "fin", sid |-> sid]
                       [] ev.op = "reset" -> [op |-> "reset", sid |-> sid, code |-> ev.code]
+                      [] ev.op = "poke" -> [op |-> "poke", task |-> "h" \o ToString(sid)]
                       [] OTHER -> [op |-> "stop", sid |-> sid, code |-> ev.code]
 RECURSIVE Interleavings(_)
 Interleavings(ss) ==
@@ -81,6 +89,8 @@ FaultyR ==
     \cup { <<"reset", 268, <<Dl(HR), Dl(D), RST(268)>>>> }                                           \* after the last frame
     \cup { <<"malformed", 0, <<Dl(Frame(1, BadResp) \o D), Dl(D)>>>>, <<"oversize", 0, <<Dl(Frame(1, BigResp) \o D), Dl(D)>>>>,
            <<"badtrailers", 0, <<Dl(HR), Dl(D), Dl(Frame(1, BadTrl)), FIN>>>>,
+           <<"malformed", 0, <<Dl(Frame(1, EmptyNameSec) \o D), Dl(D)>>>>, <<"badtrailers", 0, <<Dl(HR), Dl(D), Dl(Frame(1, EmptyNameSec)), FIN>>>>,
+           <<"stoptrl", 268, <<STP(268), [op |-> "poke"]>> \o HealthyR>>,
            <<"stop", 268, <<STP(268)>> \o HealthyR>>, <<"stop", 0, <<STP(0)>> \o HealthyR>>, <<"dropstream", 0, HealthyR>> }
 GETm == <<71, 69, 84>>
 Uri == <<104, 116, 116, 112, 115, 58, 47, 47, 97, 47>>
@@ -89,6 +99,8 @@ FullC == <<SendReq, [op |-> "finish"], [op |-> "recv_response"], [op |-> "recv_b
 \* a refused response: the application keeps the failed stream (it must not be the application's drop that stops the peer)
 ProgOf(kind) == CASE kind \in {"malformed", "oversize"} -> <<SendReq, [op |-> "finish"], [op |-> "recv_response", on_err |-> "continue"], [op |-> "hold"]>>
                   [] kind = "stop" -> <<SendReq, [op |-> "pause"], [op |-> "send_data", bytes |-> Body], [op |-> "finish"], [op |-> "recv_response"], [op |-> "recv_body"], [op |-> "recv_trailers"]>>
+                  [] kind = "stoptrl" -> <<SendReq, [op |-> "send_data", bytes |-> Body], [op |-> "pause"], [op |-> "send_trailers", fields |-> << <<<<116>>, <<49>>>> >>], [op |-> "finish"],
+                                           [op |-> "recv_response"], [op |-> "recv_body"], [op |-> "recv_trailers"]>>
                   [] kind = "dropstream" -> <<SendReq, [op |-> "drop"]>>
                   [] OTHER -> FullC
 TaskOf(k) == IF k = 1 THEN "h0" ELSE "h4"
